@@ -969,8 +969,8 @@ def _assemble(packed, hdr):
 
 def members_for(seed):
     rng = random.Random(seed)
-    return [("a.txt", arch.pattern_bytes(rng, 200, "text")), ("d/b.bin", arch.pattern_bytes(rng, 300, "random")),
-            ("d/c.dat", arch.pattern_bytes(rng, 150, "period"))]
+    return [("a.txt", arch.pattern_bytes(rng, 60, "text")), ("d/b.bin", arch.pattern_bytes(rng, 90, "random")),
+            ("d/c.dat", arch.pattern_bytes(rng, 50, "period"))]
 
 
 def base_archive(p):
@@ -1071,7 +1071,7 @@ def _vstr(v):
     return "bit %d of byte %d flipped" % (v[2], v[1]) if v[0] == "flip" else "truncated to %d bytes" % v[1]
 
 
-def damage_variants(data, rng, tier, hdr_start):
+def damage_variants(data, rng, tier, hdr_start, step=1):
     n = len(data)
     vs = [["same"]]
     if tier == "quick":
@@ -1084,7 +1084,8 @@ def damage_variants(data, rng, tier, hdr_start):
             vs.append(["trunc", t])
     else:
         for q in range(n):
-            vs.append(["flip", q, rng.randrange(8)])
+            if q < 32 or q % step == 0:
+                vs.append(["flip", q, rng.randrange(8)])
         for t in list(range(0, 40, 3)) + list(range(40, n, 17)) + [n - 1]:
             vs.append(["trunc", t])
     return vs
@@ -1241,12 +1242,12 @@ def explore(ctx, rep, rng, tier):
     # damaged archives
     chains = ["copy", "lzma2", "deflate", "bzip2"] + ([] if tier == "quick" else ["zstd", "lzma", "ppmd", "delta+lzma2", "x86+lzma2", "brotli"])
     for ch in chains:
-        for encoded in ((True,) if (tier == "quick" or ch not in ("copy", "lzma2", "deflate")) else (True, False)):
+        for encoded in ((True,) if (tier == "quick" or ch not in ("copy", "lzma2")) else (True, False)):
             p = {"archive": "chain", "chain": ch, "encoded": encoded, "seed": ctx["seed"]}
             data, ms = base_archive(p)
             p["data_hex"], p["members_hex"] = data.hex(), [[n, d.hex()] for n, d in ms]
             hdr_start = 32 + struct.unpack("<Q", data[12:20])[0]
-            p["variants"] = damage_variants(data, rng, tier, hdr_start)
+            p["variants"] = damage_variants(data, rng, tier, hdr_start, step=(1 if ch == "copy" else 2) if encoded and ch in ("copy", "lzma2") else 3)
             jobs.append(("damage", p))
     for ch in ("copy", "lzma2"):
         p = {"archive": "folder-crc", "chain": ch, "seed": ctx["seed"]}
